@@ -112,7 +112,7 @@ PLANS = {
     ),
     'C01': dict(
         module='RucteProps.C01',
-        theorems=[],
+        theorems=['Ructe.C01.textLit_ascii', 'Ructe.C01.textLit_nonascii', 'Ructe.C01.lower_text', 'Ructe.C01.render_text'],
         runs=[dict(suite='parse', mix='examples,text,structured', n=dict(quick=4000, thorough=200000), projection='body',
                    tags=['C01'], literal_oracle=True),
               dict(suite='e2e', n=dict(quick=300, thorough=6000), projection='identity', tags=['C01'])],
@@ -137,7 +137,7 @@ PLANS = {
     ),
     'C13': dict(
         module='RucteProps.C13',
-        theorems=[],
+        theorems=['Ructe.C13.signature_shape', 'Ructe.C13.content_exact', 'Ructe.C13.content_suffix_only', 'Ructe.C13.printParam_other', 'Ructe.C13.pinned_counterexamples'],
         runs=[dict(suite='parse', mix='decl,examples,structured', n=dict(quick=4000, thorough=100000), projection='header', tags=['C13'])],
         correspondence='the printed signature (use lines, lifetime list, parameter lines) of every accepted template vs Ructe.fnHeader',
         rule='0..8 parameters over 16 type shapes incl. Content / ContentType / Contents / MyContent / &Content / Vec<Content>, 7 colon layouts, parameter names resembling internals, 0..3 use lines incl. renames/globs/nested braces; non-trivial = distinct accepted syntax trees',
@@ -159,7 +159,7 @@ PLANS = {
     ),
     'C17': dict(
         module='RucteProps.C17',
-        theorems=[],
+        theorems=['Ructe.C17.announced', 'Ructe.C17.pinned_add_files_as_counterexample'],
         runs=[dict(suite='script', mix='statics,tree', n=dict(quick=150, thorough=3000), projection='script+stdout', tags=['C17'])],
         correspondence='the lines printed to stdout by a whole build-script run (public API, child process) vs Ructe.build, given the same input tree and read_dir order',
         rule='random build scripts over compile_templates / add_file / add_files / add_file_as / add_files_as (nested sub-directories) / add_file_data on random trees (tmpfs and ext4, relative and absolute paths); oracle: every directory listed and every file read or embedded is covered by a cargo:rerun-if-changed line for itself or an ancestor; non-trivial = distinct run outputs',
@@ -170,7 +170,8 @@ PLANS = {
     ),
     'C10': dict(
         module='RucteProps.C10',
-        theorems=[],
+        needs_tables=True,
+        theorems=['Ructe.C10.others_silent', 'Ructe.C10.valid_template_declared', 'Ructe.C10.broken_template_reported', 'Ructe.C10.subdir_declared', 'Ructe.C10.handleEntries_append', 'Ructe.C10.suffix_table'],
         runs=[dict(suite='script', mix='tree', n=dict(quick=200, thorough=4000), projection='script+files+stdout', tags=['C10'])],
         correspondence='the whole OUT_DIR (paths and bytes) and stdout of compile_templates on a directory tree vs Ructe.build given the observed read_dir order',
         rule='random trees to depth 4 with identifier stems / directory names, mixed suffixes, same stem under different suffixes, non-template files, empty directories, broken templates among valid ones; oracle: exactly the expected files, each the code generated for that template alone, declaration chains present, broken templates warned and undeclared; non-trivial = distinct run outputs',
@@ -181,7 +182,7 @@ PLANS = {
     ),
     'C12': dict(
         module='RucteProps.C12',
-        theorems=[],
+        theorems=['Ructe.C12.applyWrite_post', 'Ructe.C12.incremental_eq_clean', 'Ructe.C12.second_run_silent', 'Ructe.C12.untouched_elsewhere', 'Ructe.C12.runLog_get'],
         runs=[dict(suite='script', mix='history', n=dict(quick=120, thorough=2500), projection='script+files+writes', tags=['C12'])],
         correspondence='OUT_DIR contents after a run and the set of physically rewritten files (mtime) vs Ructe.build / writeIfChanged on the observed prior OUT_DIR state',
         rule='edit histories (add / modify / delete / break templates, sub-directories, statics) of 1..4 edits with a run after each, output files replaced by garbage / non-UTF-8 / truncated at 0, mid, len-1 bytes; every run compared with a clean build into an empty directory; a directly repeated run must rewrite nothing; non-trivial = distinct run outputs',
@@ -192,7 +193,7 @@ PLANS = {
     ),
     'C18': dict(
         module='RucteProps.C18',
-        theorems=[],
+        theorems=['Ructe.C18.template_code_pure', 'Ructe.C18.template_code_location_independent', 'Ructe.C18.build_deterministic', 'Ructe.C18.statics_line_pure'],
         runs=[dict(suite='script', mix='tree,statics', n=dict(quick=150, thorough=3000), projection='script+files', tags=['C18']),
               dict(suite='parse', mix='examples,structured', n=dict(quick=1500, thorough=50000), projection='text', tags=['C18'])],
         correspondence='generated files byte for byte vs the model\'s single answer; the same tree in shuffled creation orders and other locations (tmpfs / ext4) must agree',
@@ -204,7 +205,7 @@ PLANS = {
     ),
     'C07': dict(
         module='RucteProps.C07',
-        theorems=[],
+        theorems=['Ructe.C07.urlName_shape', 'Ructe.C07.base64_6_injective', 'Ructe.C07.slug_eq_iff', 'Ructe.C07.slug_shape', 'Ructe.C07.publishedName_pure', 'Ructe.C07.addHashed_publishes', 'Ructe.C07.nameAndExt_shape'],
         runs=[dict(suite='script', mix='statics', n=dict(quick=200, thorough=4000), projection='script+names', tags=['C07'], statics_oracle=True)],
         correspondence='get_names() (identifier -> URL name) after a script vs Ructe.namesAfter (Lean MD5 + base64)',
         rule='contents: empty, 1 byte, all 256 byte values, MD5 block edges 55/56/57/63/64/65/119/120/128, random; 58 file names (several dots, trailing dot, leading dot, dashes, every punctuation byte, non-ASCII); add_file / add_files / add_file_data in shuffled orders from different directories; oracle: python hashlib.md5 + base64 recomputation; non-trivial = items checked',
@@ -215,7 +216,7 @@ PLANS = {
     ),
     'C08': dict(
         module='RucteProps.C08',
-        theorems=[],
+        theorems=['Ructe.C08.byteString_roundtrip', 'Ructe.C08.strDebug_roundtrip', 'Ructe.C08.name_raw_counterexample'],
         runs=[dict(suite='script', mix='statics', n=dict(quick=200, thorough=4000), projection='script+files', tags=['C08'], statics_oracle=True)],
         correspondence='text of statics.rs vs Ructe.Statics.finish; every printed content / path / name literal decoded by the Lean model of rustc\'s lexer',
         rule='as C07, all five add_* entry points; oracle: decoded content literal = data, decoded include_bytes! path = file path, decoded name literal = published URL name; non-trivial = items checked',
@@ -226,7 +227,7 @@ PLANS = {
     ),
     'C09': dict(
         module='RucteProps.C09',
-        theorems=[],
+        theorems=['Ructe.C09.btree_insert_sorted', 'Ructe.C09.btree_keys', 'Ructe.C09.btree_perm', 'Ructe.C09.get_exact', 'Ructe.C09.get_sound', 'Ructe.C09.get_complete', 'Ructe.C09.staticsLine_lists'],
         runs=[dict(suite='script', mix='statics', n=dict(quick=200, thorough=4000), projection='script+files+names', tags=['C09'], statics_oracle=True)],
         correspondence='the STATICS line and names of statics.rs vs the model',
         rule='as C07 with name sets straddling - . _ digits upper/lower case and common prefixes, shuffled insertion orders (twins); oracle: STATICS lists each published name once in ascending byte order; non-trivial = items checked',
@@ -237,7 +238,7 @@ PLANS = {
     ),
     'C16': dict(
         module='RucteProps.C16',
-        theorems=[],
+        theorems=['Ructe.C16.mangle_ascii', 'Ructe.C16.mangle_is_ident', 'Ructe.C16.mangle_not_keyword', 'Ructe.C16.getNames_maps', 'Ructe.C16.getNames_keeps'],
         runs=[dict(suite='script', mix='statics', n=dict(quick=200, thorough=4000), projection='script+names', tags=['C16'], statics_oracle=True)],
         correspondence='identifiers (keys of get_names(), item names) vs Ructe.mangle',
         rule='as C07; oracle: identifier = every non-alphanumeric char replaced by _, n before a leading digit, legal Rust identifier; non-trivial = items checked',
@@ -262,7 +263,7 @@ PLANS = {
     ),
     'C20': dict(
         module='RucteProps.C20',
-        theorems=[],
+        theorems=['Ructe.C20.static_name_total', 'Ructe.C20.static_name_never_wrong', 'Ructe.C20.static_name_missing', 'Ructe.C20.pinned_counterexample'],
         runs=[dict(suite='sass', features=['sass'], n=dict(quick=150, thorough=3000), projection='identity', tags=['C20'])],
         correspondence='what static_name("f") evaluates to inside add_sass_file (recovered from the published name of the compiled CSS) or the build error, vs Ructe.staticName on get_names() before the call',
         rule='sets of 1..6 previously added files from 30 names (dashes, dots, underscores, leading digits, spaces, every punctuation byte rsass accepts in a string, non-ASCII letters), added through add_file and add_file_data; one scss per reference; references to every member, to non-members and to a name never used; non-trivial = distinct queried names',
@@ -273,7 +274,7 @@ PLANS = {
     ),
     'C03': dict(
         module='RucteProps.C03',
-        theorems=[],
+        theorems=['Ructe.C03.render_if_taken', 'Ructe.C03.render_else_if', 'Ructe.C03.else_if_flattening', 'Ructe.C03.render_for', 'Ructe.C03.render_match', 'Ructe.C03.render_seq', 'Ructe.C03.render_fuel_mono'],
         runs=[dict(suite='e2e', n=dict(quick=800, thorough=12000), projection='identity', tags=['C03']),
               dict(suite='parse', mix='structured,examples', n=dict(quick=1500, thorough=50000), projection='body', tags=['C03'])],
         correspondence='bytes written by the rustc-compiled generated functions vs Ructe.renderL (specification semantics under the mini-Rust Sem) of the model\'s parse; syntax tree and body code of structured templates vs the model',
@@ -285,7 +286,7 @@ PLANS = {
     ),
     'C04': dict(
         module='RucteProps.C04',
-        theorems=[],
+        theorems=['Ructe.C04.render_call', 'Ructe.C04.block_captures_caller', 'Ructe.C04.render_content_param', 'Ructe.C04.compose_chain', 'Ructe.C04.lower_block'],
         runs=[dict(suite='e2e', n=dict(quick=800, thorough=12000), projection='identity', tags=['C04'], args=['--layout'])],
         correspondence='as C03, on programs with calls and Content blocks across modules (templates printed with random layouts)',
         rule='typed template programs: 1..5 templates per program in up to 3 module levels, acyclic calls with 0..3 Content blocks (empty / comment-only / nested directives and calls), if / else-if chains / if-let / for over slices, tuples (& patterns), struct destructuring, ranges, enumerate / match with 2..3 arms, every relational operator, negation, &&, ||; 3 argument sets per program; every rendering re-run under fault sinks (failure at every byte offset for renderings up to 48 bytes, sampled beyond; chunk sizes 1 / 3 / 7 / unlimited; Interrupted every 2nd / 5th call); non-trivial = distinct renderings',
@@ -296,7 +297,7 @@ PLANS = {
     ),
     'C14': dict(
         module='RucteProps.C14',
-        theorems=[],
+        theorems=['Ructe.C14.exec_prefix', 'Ructe.C14.exec_ok_complete', 'Ructe.C14.exec_schedule_irrelevant', 'Ructe.C14.exec_err_stops', 'Ructe.C14.iter_err_stops'],
         runs=[dict(suite='e2e', n=dict(quick=800, thorough=12000), projection='identity', tags=['C14']),
               dict(suite='html', n=dict(quick=5000, thorough=200000), projection='identity', tags=['C14'])],
         correspondence='compiled behaviour under fault-injecting sinks (inside the generated main.rs) and the escaping writer under scheduled sinks vs Esc.toHtmlDisplay / Ructe.execL',
